@@ -116,7 +116,8 @@ class DecPort(object):
 
 class EncPort(object):
     """chooser(info) -> raw (uncompressed: one raw; compressed: list of nsub raws, or (list, nbinc_spec)).
-    raw None = missing.  nbinc_spec: ('extra', k) or ('abs', n)."""
+    raw None = missing.  nbinc_spec: ('extra', k), ('abs', n) or ('force', n): like 'abs', and a constant column is written
+    with difference width n and zero increments instead of width 0."""
 
     def __init__(self, chooser, nsub, compressed):
         self.buf = BitBuf()
@@ -155,14 +156,22 @@ class EncPort(object):
             b.put_ones(w)
             b.put(0, 6)
             self.nbincs.append(0)
-        elif len(present) == len(col) and min(present) == max(present):
+        elif len(present) == len(col) and min(present) == max(present) and not (spec[0] == 'force' and spec[1] > 0):
             b.put(present[0], w)
             b.put(0, 6)
             self.nbincs.append(0)
+        elif len(present) == len(col) and min(present) == max(present):
+            # a constant column written the long way: base, a non-zero difference width, all-zero increments (legal; a
+            # writer is not obliged to notice that the subsets agree)
+            b.put(present[0], w)
+            b.put(spec[1], 6)
+            self.nbincs.append(spec[1])
+            for r in col:
+                b.put(0, spec[1])
         else:
             base = min(present)
             nb = min_nbinc(max(present) - base)
-            nb = nb + spec[1] if spec[0] == 'extra' else max(nb, spec[1])
+            nb = nb + spec[1] if spec[0] == 'extra' else max(nb, spec[1])        # 'abs' and 'force': at least the minimum
             if nb > 63:
                 raise ValueError('difference width > 63')
             b.put(base, w)
